@@ -8,6 +8,7 @@ package kafka
 
 import (
 	"bufio"
+	"context"
 	"encoding/binary"
 	"encoding/json"
 	"fmt"
@@ -528,6 +529,7 @@ type c10bScenario struct {
 	PerFetch     int `json:"per_fetch"`     // >0: the broker hands out at most that many records of a partition per fetch response
 	StallMs      int `json:"stall_ms"`      // >0: In blocks that long for the first record
 	MaxConsumers int `json:"max_consumers"` // max_concurrent_consumers (capacity of a partition consumer's fetch queue); 0 = default
+	Lifecycle    int `json:"lifecycle"`     // >0: the plugin is the input of a REAL pipeline whose output delivers only the first Lifecycle records; then Pipeline.Stop
 	Recs   []struct {
 		ID    int    `json:"id"`
 		Topic string `json:"topic"`
@@ -537,8 +539,134 @@ type c10bScenario struct {
 	} `json:"recs"`
 }
 
+// ---------------------------------------------------------------------------------
+// shutdown of a whole pipeline (specs/Shutdown.tla): the kafka plugin is the input of a real pipeline; its output delivers the
+// first records and hangs on the rest (backend down); Pipeline.Stop; what did the broker get?
+// ---------------------------------------------------------------------------------
+type c10bLifeOut struct {
+	mu        sync.Mutex
+	deliver   int // records with id <= deliver are delivered, the others hang until the output is stopped
+	delivered []int
+	batcher   *pipeline.RetriableBatcher
+	ctx       context.Context
+	cancel    context.CancelFunc
+	log       func(ev string, kv ...interface{})
+}
+
+func c10bID(e *pipeline.Event) int {
+	n := e.Root.Dig("id")
+	if n == nil {
+		return 0
+	}
+	return n.AsInt()
+}
+
+func (o *c10bLifeOut) Start(_ pipeline.AnyConfig, p *pipeline.OutputPluginParams) {
+	opts := &pipeline.BatcherOptions{PipelineName: p.PipelineName, OutputType: "verif_c10b", Controller: p.Controller, Workers: 2,
+		BatchSizeCount: 1, FlushTimeout: 10 * time.Millisecond, MetricCtl: p.MetricCtl}
+	// no dead queue, not fatal: a batch whose retries are exhausted is given up and committed (file.d's documented behaviour)
+	o.batcher = pipeline.NewRetriableBatcher(opts, o.send, pipeline.BackoffOpts{MinRetention: time.Millisecond, Multiplier: 1.5, AttemptNum: 1},
+		func(error, []*pipeline.Event) {})
+	o.ctx, o.cancel = context.WithCancel(context.Background())
+	o.batcher.Start(context.Background())
+}
+
+// the way clickhouse / postgres outputs stop: pending requests are cancelled, then the batcher is stopped
+func (o *c10bLifeOut) Stop()                 { o.cancel(); o.batcher.Stop() }
+func (o *c10bLifeOut) Out(e *pipeline.Event) { o.batcher.Add(e) }
+func (o *c10bLifeOut) send(_ *pipeline.WorkerData, b *pipeline.Batch) error {
+	ids := []int{}
+	hang := false
+	b.ForEach(func(e *pipeline.Event) {
+		id := c10bID(e)
+		ids = append(ids, id)
+		if id > o.deliver {
+			hang = true
+		}
+	})
+	if hang {
+		<-o.ctx.Done() // the backend does not answer; the request ends when the output is stopped
+		return o.ctx.Err()
+	}
+	o.mu.Lock()
+	o.delivered = append(o.delivered, ids...)
+	o.log("SendRet", "ids", ids, "ok", true)
+	o.mu.Unlock()
+	return nil
+}
+
+func c10bRunLifecycle(sc *c10bScenario) []map[string]interface{} {
+	var evs []map[string]interface{}
+	var lmu sync.Mutex
+	n := 0
+	log := func(ev string, kv ...interface{}) {
+		lmu.Lock()
+		defer lmu.Unlock()
+		n++
+		e := map[string]interface{}{"n": n, "ev": ev, "run": sc.Run}
+		for i := 0; i+1 < len(kv); i += 2 {
+			e[kv[i].(string)] = kv[i+1]
+		}
+		evs = append(evs, e)
+	}
+	log("Reset", "name", sc.Name)
+	b := c10bNewBroker()
+	defer b.close()
+	b.createPartition("va", 0)
+	for i, r := range sc.Recs {
+		b.produce("va", 0, r.Epoch, fmt.Sprintf(`{"id":%d}`, r.ID))
+		log("Fetched", "id", r.ID, "topic", 0, "part", 0, "off", int64(i), "epoch", int(r.Epoch))
+	}
+	rawCfg := &Config{Brokers: []string{b.addr()}, Topics: []string{"va"}, ConsumerGroup: "verif-group", Offset: "oldest",
+		AutoCommitInterval: cfg.Duration("1h"), ConsumerMaxWaitTime: cfg.Duration("50ms")}
+	config := test.NewConfig(rawCfg, nil).(*Config)
+	settings := &pipeline.Settings{Decoder: "auto", Capacity: 64, MaintenanceInterval: time.Hour, EventTimeout: time.Second,
+		Antispam: pipeline.AntispamSettings{Threshold: -1, MaintenanceInterval: time.Hour}, AvgEventSize: 128,
+		StreamField: "stream", Pool: pipeline.PoolTypeStd, Metric: &pipeline.MetricSettings{HoldDuration: time.Hour}}
+	p := pipeline.New(fmt.Sprintf("verif_c10l_%d", sc.Run), settings, prometheus.NewRegistry(), zap.NewNop())
+	p.SetInput(&pipeline.InputPluginInfo{
+		PluginStaticInfo:  &pipeline.PluginStaticInfo{Type: "kafka", Config: config},
+		PluginRuntimeInfo: &pipeline.PluginRuntimeInfo{Plugin: &Plugin{}, ID: "kafka"},
+	})
+	out := &c10bLifeOut{deliver: sc.Lifecycle, log: log}
+	p.SetOutput(&pipeline.OutputPluginInfo{
+		PluginStaticInfo:  &pipeline.PluginStaticInfo{Type: "verif_out"},
+		PluginRuntimeInfo: &pipeline.PluginRuntimeInfo{Plugin: out, ID: "verif_out"},
+	})
+	p.Start()
+	// the deliverable records are delivered and committed; the others are in flight in the output
+	deadline := time.Now().Add(20 * time.Second)
+	ok := false
+	for time.Now().Before(deadline) {
+		out.mu.Lock()
+		d := len(out.delivered)
+		out.mu.Unlock()
+		if d >= sc.Lifecycle {
+			ok = true
+			break
+		}
+		time.Sleep(5 * time.Millisecond)
+	}
+	time.Sleep(150 * time.Millisecond) // commits of the delivered ones reach the input; the rest sits in the hanging sends
+	stopped := make(chan struct{})
+	go func() { p.Stop(); close(stopped) }()
+	select {
+	case <-stopped:
+	case <-time.After(30 * time.Second):
+		ok = false
+	}
+	for _, c := range b.allCommits() {
+		log("BrokerCommit", "topic", 0, "part", int(c.partition), "offset", c.offset, "epoch", int(c.epoch))
+	}
+	log("End", "idle", ok)
+	return evs
+}
+
 // c10bRun performs one scenario and returns trace lines in the vocabulary of specs/KafkaMon.tla
 func c10bRun(sc *c10bScenario) []map[string]interface{} {
+	if sc.Lifecycle > 0 {
+		return c10bRunLifecycle(sc)
+	}
 	var evs []map[string]interface{}
 	n := 0
 	log := func(ev string, kv ...interface{}) {
